@@ -305,4 +305,6 @@ def units(tier):
             continue
         u.prop, u.name = 'C07', 'C07.types.' + u.name.split('.', 1)[1]
         us.append(u)
-    return us
+    # "under the connection's protocol": the packet is encoded under the context write_packet stamps on it
+    from .deps import dependency_units
+    return us + dependency_units('C07')
